@@ -1830,7 +1830,9 @@ func (sa *Application) addAllocationInternal(allocType AllocationResultType, all
 		// already when the last placeholder was allocated
 		// special case COMPLETING: gang with only one placeholder moves to COMPLETING and causes orphaned
 		// allocations
-		if allocType != Replaced || !resources.IsZero(sa.allocatedResource) || sa.IsCompleting() {
+		// special case ACCEPTED: the first replacement happens before all placeholders are allocated, the
+		// application must run or a placeholder timeout treats the real allocation as a placeholder
+		if allocType != Replaced || !resources.IsZero(sa.allocatedResource) || sa.IsCompleting() || sa.IsAccepted() {
 			// progress the state based on where we are, we should never fail in this case
 			// keep track of a failure in log.
 			if err := sa.HandleApplicationEvent(RunApplication); err != nil {
